@@ -173,3 +173,26 @@ impl<R> FixedSizeChunkIter<R> {
         ensures c.size == size && c.reader == reader,
     { unimplemented!() }
 }
+
+// ---- init: nothing is created before the configuration was accepted ----
+pub struct CredentialsR { pub _opaque: u64 }
+pub struct KeyOptionsR { pub _opaque: u64 }
+pub struct KeyR { pub _opaque: u64 }
+pub struct KeyIdR { pub _opaque: u64 }
+pub struct RepositoryIdR { pub _opaque: u64 }
+pub struct VInitRepo { pub hot: bool }
+impl VInitRepo {
+    pub fn vhas_hot(&self) -> (r: bool) ensures r == self.hot, { self.hot }
+}
+#[verifier::external_body]
+pub fn vrandom_repo_id() -> RepositoryIdR { unimplemented!() }
+#[verifier::external_body]
+pub fn vrandom_poly() -> RusticResult<u64> { unimplemented!() }
+// ConfigFile::new(version, id, poly): a fresh configuration with nothing named yet
+#[verifier::external_body]
+pub fn vconfigfile_new(version: u32, id: RepositoryIdR, poly: u64) -> ConfigFile { unimplemented!() }
+// init_with_config: creates the backend, writes the key file and the config file.  PRECONDITION: the configuration is an accepted one
+#[verifier::external_body]
+pub fn vinit_with_config(repo: &VInitRepo, credentials: &CredentialsR, key_opts: &KeyOptionsR, config: &ConfigFile) -> (r: RusticResult<(KeyR, Option<KeyIdR>)>)
+    requires accepted(*config),
+{ unimplemented!() }
